@@ -25,7 +25,7 @@ Cycles    == IF Big THEN {"", "1", "10", "20000101T00Z", "2000-01-01T00+05", "*"
 CSels     == {"", "cs"}
 Tasks     == IF Big THEN {"", "t", "t.x", "t-1+%@", "*", "~t"}       ELSE {"", "t.x", "t-1+%@", "~t"}
 TSels     == IF Big THEN {"", "ts", "s.1"}                           ELSE {"", "s.1"}
-Jobs      == IF Big THEN {"", "01", "1", "12", "NN", "123", "007"}   ELSE {"", "1", "12", "NN", "123"}
+Jobs      == IF Big THEN {"", "01", "1", "12", "NN", "123", "007"}   ELSE {"", "1", "12", "NN", "123", "007"}
 JSels     == {"", "js"}
 
 \* job numbers are shown zero-padded to (at least) two digits; NN is the "latest job" alias
